@@ -589,6 +589,20 @@ void _mi_error_message(int err, const char* fmt, ...) {
 #include <string.h> // strstr
 
 
+// Is `s` exactly one of the `;` separated words in `words`?
+static bool mi_option_is_word(const char* s, const char* words) {
+  const size_t len = _mi_strlen(s);
+  if (len == 0) return false;
+  for (const char* w = words; *w != 0; ) {
+    size_t wlen = 0;
+    while (w[wlen] != 0 && w[wlen] != ';') { wlen++; }
+    if (wlen == len && _mi_strnicmp(w, s, len) == 0) return true;
+    w += wlen;
+    if (*w == ';') { w++; }
+  }
+  return false;
+}
+
 static void mi_option_init(mi_option_desc_t* desc) {
   // Read option value from the environment
   char s[64 + 1];
@@ -611,11 +625,11 @@ static void mi_option_init(mi_option_desc_t* desc) {
       buf[i] = _mi_toupper(s[i]);
     }
     buf[len] = 0;
-    if (buf[0] == 0 || strstr("1;TRUE;YES;ON", buf) != NULL) {
+    if (buf[0] == 0 || mi_option_is_word(buf, "1;TRUE;YES;ON")) {
       desc->value = 1;
       desc->init = INITIALIZED;
     }
-    else if (strstr("0;FALSE;NO;OFF", buf) != NULL) {
+    else if (mi_option_is_word(buf, "0;FALSE;NO;OFF")) {
       desc->value = 0;
       desc->init = INITIALIZED;
     }
